@@ -493,9 +493,18 @@ func (m *MonC06) Name() string { return "C06" }
 
 func (m *MonC06) judge(s *SlashRecord) {
 	rep := m.R.Rep
+	failed := ""
 	if s.Err != "" || s.Panic != "" {
-		rep.Count("C06.skipped-failed-callback", 1)
-		return
+		hits, _ := m.R.pendingHits(s)
+		if strings.Contains(s.Err, "insufficient funds") && strings.Contains(s.Err, "spendable balance") && len(hits) > 0 {
+			// the recorded pool-short cause (C08/C12): the callback cannot pay a redelegation destination's rewards
+			rep.Count("C06.skipped-failed-callback", 1)
+			return
+		}
+		// x/staking only logs the callback's error and slashes the validator anyway: whatever the failed
+		// callback left behind is the outcome of this slash and is judged like any other
+		failed = fmt.Sprintf(" [the slash callback failed: %s%s]", s.Err, s.Panic)
+		rep.Class("C06.failed-callback-judged")
 	}
 	w := m.R.W
 	hits, merged := m.R.pendingHits(s)
@@ -539,7 +548,7 @@ func (m *MonC06) judge(s *SlashRecord) {
 				return
 			}
 		}
-		rep.Violate("C06", "C06.proportional", s.Idx, "slash of %s by %s: %s", w.Name(s.Val), s.Fraction, msg)
+		rep.Violate("C06", "C06.proportional", s.Idx, "slash of %s by %s: %s%s", w.Name(s.Val), s.Fraction, msg, failed)
 		return
 	}
 	// derived, reported separately for diagnosis: nobody outside the slashed validator (and outside
